@@ -10,7 +10,11 @@ let b64 = "ABCDEFGHIJKLMNOPQRSTUVWXYZabcdefghijklmnopqrstuvwxyz0123456789-_"
 let fake_name k =
   "Vf" ^ String.make 1 b64.[(k / 4096) mod 64] ^ String.make 1 b64.[(k / 64) mod 64]
   ^ String.make 1 b64.[k mod 64] ^ "AAAAAA"
-let id_of_index k = Url.parse_uid (bytes_of_string (fake_name k))
+let id_tbl = Hashtbl.create 1024
+let id_of_index k =
+  match Hashtbl.find_opt id_tbl k with
+  | Some i -> i
+  | None -> let i = Url.parse_uid (bytes_of_string (fake_name k)) in Hashtbl.add id_tbl k i; i
 
 let st = ref Files.init
 let uploaded : int list ref = ref []
